@@ -117,6 +117,7 @@ extern void *__real_mremap(void *, size_t, size_t, int, ...);
 extern int __real_usleep(useconds_t);
 extern unsigned int __real_sleep(unsigned int);
 extern int __real_sched_yield(void);
+extern void __real_pthread_exit(void *) __attribute__((noreturn));
 
 static uint64_t xs(uint64_t *s) { *s ^= *s << 13; *s ^= *s >> 7; *s ^= *s << 17; return *s; }
 
@@ -766,6 +767,18 @@ static void ds_key_dtor(void *p)
 	struct thr *me = p;
 	if (++dtor_round[me->id] < PTHREAD_DESTRUCTOR_ITERATIONS) { pthread_setspecific(ds_key, me); return; }
 	thread_finish(me);
+}
+void __wrap_pthread_exit(void *ret)
+{
+	struct thr *me = self;
+	if (active && me && me->pt == pthread_self() && me->id != 0) {
+		/* a library thread leaving through pthread_exit(): finish exactly like a return from its start routine */
+		int was = in_rt; in_rt = 1;
+		me->ret = ret;
+		pthread_setspecific(ds_key, me);
+		in_rt = was;
+	}
+	__real_pthread_exit(ret);
 }
 static void *tramp(void *p)
 {
